@@ -105,6 +105,7 @@ type explorer struct {
 	replay      *violation
 	params      map[string]int
 	setargs     []setArg
+	forkSites   map[string]int
 	noPresolve  bool
 	preDecided  atomic.Int64
 }
@@ -172,6 +173,7 @@ type world struct {
 	sv2       *solver
 	sum       *sumState
 	replayPos int
+	curFrame  *frame
 	doms      *domState
 }
 
@@ -386,9 +388,13 @@ func (w *world) feasible(t *Term) satResult {
 		return rSat // the path condition is satisfiable by invariant
 	}
 	w.flushPC()
+	t0 := time.Now()
 	r := w.sv.check(t)
 	if r == rSat {
 		w.sv.endModel(t != nil)
+	}
+	if d := time.Since(t0); d > 2*time.Second && os.Getenv("SYMGO_SLOW") != "" {
+		fmt.Fprintf(os.Stderr, "slow query %.1fs result=%v size=%d pc=%d: %.300s\n", d.Seconds(), r, t.size, len(w.pc), w.sv.expr(t))
 	}
 	return r
 }
@@ -431,6 +437,15 @@ func (w *world) branch(cond *Term) bool {
 	switch {
 	case rt != rUnsat && rf != rUnsat:
 		// fork: continue with true, queue false
+		if w.ex.forkSites != nil && w.curFrame != nil {
+			site := w.curFrame.fn.String() + w.curFrame.where()
+			for c, k := w.curFrame.caller, 0; c != nil && k < 3; c, k = c.caller, k+1 {
+				site += " <- " + c.fn.Name() + c.where()
+			}
+			w.ex.mu.Lock()
+			w.ex.forkSites[site]++
+			w.ex.mu.Unlock()
+		}
 		alt := append(append([]int{}, w.decisions...), 1)
 		w.ex.push(alt)
 		w.decisions = append(w.decisions, 0)
